@@ -80,6 +80,9 @@ pub fn universe_by_label(label: &str, opts: &Opts) -> Universe {
     if label == "fixed" {
         return fixed_universe();
     }
+    if label == "extra" {
+        return vmodel::fixedgen::extra_universe();
+    }
     if label == "replay" {
         let r = opts.replay.as_ref().and_then(|p| crate::read_json(&p.to_string_lossy())).expect("replay file");
         let mut u: Universe = serde_json::from_value(r["universe_inline"].clone()).expect("universe_inline");
@@ -350,7 +353,15 @@ pub fn run_bin(label: &str, prop: &str, opts: &Opts, extra: &[String]) -> Result
             }
             RunOutcome::Failed(e) => return Err(e),
             RunOutcome::Signal(sig, _) => {
-                if sig == 9 || skip.len() >= 4 || n_subjects == 0 {
+                if skip.len() >= 4 && !crash_failures.is_empty() {
+                    // several types crash the process: report the ones attributed so far
+                    return Ok(serde_json::json!({
+                        "evaluations": crash_failures.len(), "nontrivial": [], "classes": {}, "samples": [], "failures": crash_failures,
+                        "known": {}, "excluded": {}, "exhaustive_parts": {}, "subjects": n_subjects, "wall_s": 0.0,
+                        "notes": ["the subject program kept crashing after 4 crashing types were set aside; the remaining subjects were not explored"],
+                    }));
+                }
+                if sig == 9 || n_subjects == 0 {
                     return Err(format!("subject program {} was killed by signal {} for {} (not attributed)", label, sig, prop));
                 }
                 // bisect the subject range
